@@ -38,7 +38,9 @@ type tNode struct {
 
 var nameAlphabet = []string{"a", "b", "file", "dir", "with space", ".hidden", "x.y", "a..b", "..c", "d..", "日本", "é", "q'uote", "do$llar", "semi;colon", "amp&", "(paren)", "star*", "long-name-0123456789", "UPPER", "tab\tname",
 	// names that look like archives (directories and plain files): under recursive limits they are candidates for nested extraction
-	"backup.zip", "logs.gz", "pack.7z", "v1.Z"}
+	"backup.zip", "logs.gz", "pack.7z", "v1.Z",
+	// names made of white space only
+	" ", "  ", "\u00a0", "\u3000"}
 
 func genTree(rnd *hx.Rand, maxEntries, maxDepth int, bigFiles, allowDotDot bool) []tNode {
 	var nodes []tNode
